@@ -1,13 +1,144 @@
-"""C14 -- placeholder until the check is built"""
+"""C14 -- spline specific yield interpolates its knots and integrates consistently"""
+
+import numpy as np
+
+from .. import core, gen_params, oracle_hydraulics as oh
+
 PROPERTY = 'C14'
 LEVEL = 'exploration'
-SHARDS = {'quick': 1, 'thorough': 1}
-RULE = 'not built yet'
+SHARDS = {'quick': 4, 'thorough': 16}
+RULE = (
+    'G-params knot sets (4-9 strictly increasing knots, spacing 1-500 mm, values in [0, 1]: constant, increasing, '
+    'arbitrary) built by the real create_specific_yield_function; per set 40 limit pairs/triples drawn from {below '
+    'the range, at the first knot, inside, at a knot, at the last knot, above} in every order (a<b, a=b, a>b, both '
+    'beyond the same end).  Oracle: value at every knot; constancy beyond both ends; integrate(a,b) against the area '
+    'under the same callable computed by 5-point Gauss-Legendre on each data-knot interval (exact for the cubic '
+    'pieces) plus rectangles outside (1e-10 relative to the scale of the area); additivity over adjacent ranges and '
+    'antisymmetry.  Non-trivial: limits straddling a domain end or reversed; distinct by (knot-set digest, class of '
+    'limits).'
+)
+ASSUMPTIONS = ['FITPACK\'s interpolating cubic spline has its breakpoints at data knots only, so 5-point Gauss-Legendre per data interval is exact']
+SIZES = {'quick': dict(sets=500, pairs=40), 'thorough': dict(sets=40000, pairs=60)}
+REQUIRED = {
+    tier: {
+        'knot-values-checked': 2000,
+        'extrapolation-checked': 1000,
+        'integrals-vs-area': 10000,
+        'additivity-triples': 5000,
+        'class:below-below': 100, 'class:above-above': 100, 'class:below-above': 100, 'class:inside-inside': 100,
+        'class:below-inside': 100, 'class:inside-above': 100, 'class:reversed': 2000, 'class:equal-limits': 100,
+    }
+    for tier in ('quick', 'thorough')
+}
+MIN_NONTRIVIAL = {'quick': 2000, 'thorough': 50000}
+
+
+def region(x, lo, hi):
+    return 'below' if x < lo else ('above' if x > hi else 'inside')
+
+
+def draw_limit(rng, knots):
+    lo, hi = knots[0], knots[-1]
+    span = hi - lo
+    r = rng.random()
+    if r < 0.2:
+        return lo - rng.uniform(0.001, 2) * span
+    if r < 0.4:
+        return hi + rng.uniform(0.001, 2) * span
+    if r < 0.5:
+        return rng.choice(knots)
+    if r < 0.55:
+        return lo
+    if r < 0.6:
+        return hi
+    return rng.uniform(lo, hi)
+
+
+def check_set(ctx, rng, params, npairs):
+    import spowtd.specific_yield as sy_mod
+
+    rec = ctx.rec
+    knots = [float(v) for v in params['zeta_knots_mm']]
+    vals = [float(v) for v in params['sy_knots']]
+    case = {'kind': 'spline_sy', 'params': params}
+    try:
+        sy = sy_mod.create_specific_yield_function(dict(params))
+    except Exception as exc:  # pylint: disable=broad-except
+        desc = core.describe_exception(exc)
+        if desc['origin'] == 'harness':
+            rec.inconclusive_because('harness exception: {}'.format(desc))
+        else:
+            rec.violation('construction-raises:' + desc['type'], {'exception': desc}, case, 'spline_sy')
+        return
+    vmax = max(1e-3, max(abs(v) for v in vals))
+    rec.case()
+    got = np.asarray(sy(np.array(knots)), dtype=float)
+    if not np.all(np.abs(got - np.array(vals)) <= 1e-9 * vmax):
+        rec.violation('does-not-pass-through-a-knot', {'knots': knots, 'values': vals, 'got': got.tolist()}, case, 'spline_sy')
+        return
+    rec.hit('knot-values-checked', len(knots))
+    lo, hi = knots[0], knots[-1]
+    span = hi - lo
+    for x, ref in ((lo - 0.5 * span, vals[0]), (lo - 1e-6, vals[0]), (hi + 1e-6, vals[-1]), (hi + 3 * span, vals[-1])):
+        v = float(sy(x))
+        if abs(v - ref) > 1e-9 * vmax:
+            rec.violation('not-constant-outside-the-knot-range', {'level': x, 'value': v, 'end_value': ref}, case, 'spline_sy')
+            return
+        rec.hit('extrapolation-checked')
+    f = lambda x: np.asarray(sy(np.asarray(x, dtype=float)), dtype=float)
+    # the actual range of the function, for the scale of an area
+    fmax = max(vmax, float(np.max(np.abs(f(np.linspace(lo, hi, 101))))))
+    for _ in range(npairs):
+        a, b, c = draw_limit(rng, knots), draw_limit(rng, knots), draw_limit(rng, knots)
+        if rng.random() < 0.05:
+            b = a
+        rec.case()
+        ra, rb = region(a, lo, hi), region(b, lo, hi)
+        cls = '-'.join(sorted([ra, rb], key=['below', 'inside', 'above'].index))
+        rec.hit('class:' + cls)
+        if a > b:
+            rec.hit('class:reversed')
+        if a == b:
+            rec.hit('class:equal-limits')
+        try:
+            iab = float(sy.integrate(a, b))
+            iba = float(sy.integrate(b, a))
+            ibc = float(sy.integrate(b, c))
+            iac = float(sy.integrate(a, c))
+        except Exception as exc:  # pylint: disable=broad-except
+            desc = core.describe_exception(exc)
+            if desc['origin'] == 'harness':
+                rec.inconclusive_because('harness exception: {}'.format(desc))
+                return
+            rec.violation('integrate-raises:' + desc['type'], {'exception': desc, 'limits': [a, b, c]}, dict(case, limits=[a, b, c]), 'spline_sy')
+            return
+        ref = oh.clamped_integral(f, a, b, knots)
+        scale = fmax * (abs(b - a) + abs(c - b) + abs(c - a)) + 1e-300
+        w = {'limits': [a, b, c], 'classes': [ra, rb], 'knots': knots, 'values': vals}
+        if abs(iab - ref) > 1e-10 * max(scale, fmax * span):
+            rec.violation('integral-differs-from-the-area-under-the-function', dict(w, integrate=iab, area=ref), dict(case, limits=[a, b, c]), 'spline_sy')
+            return
+        rec.hit('integrals-vs-area')
+        if abs(iab + iba) > 1e-12 * scale:
+            rec.violation('integral-does-not-change-sign-when-limits-are-swapped', dict(w, ab=iab, ba=iba), dict(case, limits=[a, b, c]), 'spline_sy')
+            return
+        if abs(iab + ibc - iac) > 1e-10 * scale:
+            rec.violation('integrals-are-not-additive', dict(w, ab=iab, bc=ibc, ac=iac), dict(case, limits=[a, b, c]), 'spline_sy')
+            return
+        rec.hit('additivity-triples')
+        if ra != rb or a > b:
+            rec.mark_nontrivial(core.digest((knots, vals, cls, a > b)))
+    if len(rec.samples) < 3:
+        rec.sample({'knots_mm': knots, 'sy_values': vals, 'example_limits': [a, b], 'integrate': iab, 'area_by_quadrature': ref})
 
 
 def run(ctx):
-    ctx.rec.inconclusive_because('check not built yet')
+    s = SIZES[ctx.tier]
+    rng = ctx.rng('sy')
+    for _ in range(ctx.share(s['sets'])):
+        check_set(ctx, rng, gen_params.spline_sy(rng, positive=False), s['pairs'])
 
 
 def replay(ctx, case, module=None):
-    ctx.rec.inconclusive_because('check not built yet')
+    rng = core.make_rng('replay')
+    check_set(ctx, rng, case['params'], 200)
